@@ -8,7 +8,7 @@ From Coq Require Import ZArith List Bool Lia.
 Import ListNotations.
 Require Import Base.Py Base.ZList Model.Id3Spec Model.Id3Frame Gen.Gen_frames
   Proofs.C12_ints Proofs.C12_codec Proofs.C12_specs Proofs.C12_specs2 Proofs.C12_frame Proofs.C12_framing
-  Proofs.C12_tag Proofs.C12_nested Proofs.C12_tagflag.
+  Proofs.C12_tag Proofs.C12_nested Proofs.C12_tagflag Proofs.C12_upgrade.
 Open Scope Z_scope.
 
 (* ---- (a) text codecs: decode (encode s) = s for every list of valid code points, astral planes included *)
@@ -170,6 +170,37 @@ Theorem C12_whole_tag_unsynch_v22_v23 : forall ver d data, ver < 4 ->
 Proof. exact (tag_read_whole_tag_unsynch frames_2_2 all_frames). Qed.
 Print Assumptions C12_whole_tag_unsynch_v22_v23.
 
+(* ---- (h) the v2.2 -> v2.3/v2.4 upgrade (Frame._upgrade_frame / _to_other, also the Frame(other) copy): a three-letter
+   class whose base class has the same field names becomes that base class with exactly the same values, the optional
+   trailing fields included *)
+Theorem C12_v22_upgrade_keeps_fields : forall tbl fr b rest base vs,
+  zlen (fr_id fr) = 3 -> fr_bases fr = b :: rest -> frame_lookup tbl b = Some base ->
+  nodupb (names_of (all_fields fr)) = true ->
+  names_eqb (names_of (fr_spec base)) (names_of (fr_spec fr)) = true ->
+  names_eqb (names_of (fr_opt base)) (names_of (fr_opt fr)) = true ->
+  (length (fr_spec fr) <= length vs)%nat -> (length vs <= length (all_fields fr))%nat ->
+  upgrade_frame tbl fr vs = Ok (Some (fr_id base, vs)).
+Proof. exact upgrade_frame_same. Qed.
+Print Assumptions C12_v22_upgrade_keeps_fields.
+
+(* ... and its hypotheses hold for every class of the regenerated Frames_2_2 table whose base class is a registry class
+   with the same field names (all but PIC / LNK / RVA, which override _to_other, and CRM, which has no base class) *)
+Definition upgrade_hyps (fr : frame_desc) : bool :=
+  match fr_bases fr with
+  | b :: _ => match frame_lookup all_frames b with
+              | Some base => (zlen (fr_id fr) =? 3) && nodupb (names_of (all_fields fr)) &&
+                             names_eqb (names_of (fr_spec base)) (names_of (fr_spec fr)) &&
+                             names_eqb (names_of (fr_opt base)) (names_of (fr_opt fr))
+              | None => false
+              end
+  | [] => false
+  end.
+Theorem C12_v22_upgrade_table :
+  (4 <=? zlen (filter (fun fr => negb (upgrade_hyps fr)) frames_2_2)) = false /\
+  forallb (fun fr => nodupb (names_of (all_fields fr))) (all_frames ++ frames_2_2) = true.
+Proof. vm_compute. split; reflexivity. Qed.
+Print Assumptions C12_v22_upgrade_table.
+
 (* ---- non-vacuity: the hypotheses are satisfiable, the degenerate v2.3 case is excluded by frame_valid *)
 Example C12_ex_apic :
   let vs := [VInt 1; VText [105;109;97;103;101;47;112;110;103]; VInt 3; VText [128512; 233]; VBytes [255; 0; 0]] in
@@ -237,3 +268,21 @@ Example C12_ex_v22_tag_unsynch :
   tag_read frames_2_2 all_frames 2 1 true (fr_unsynch_encode tt2) =
     Ok (mkParsed [(fr_id fr_TT2, [VInt 0; VList [VText [255; 254]]])] [] []).
 Proof. vm_compute. reflexivity. Qed.
+
+(* POP with the optional play counter upgrades to POPM with the counter; BUF with both optional fields to RBUF *)
+Example C12_ex_upgrade_optional :
+  upgrade_hyps fr_POP = true /\ upgrade_hyps fr_BUF = true /\
+  upgrade_frame all_frames fr_POP [VText [97]; VInt 196; VInt 66215] = Ok (Some (fr_id fr_POPM, [VText [97]; VInt 196; VInt 66215])) /\
+  upgrade_frame all_frames fr_POP [VText [97]; VInt 196] = Ok (Some (fr_id fr_POPM, [VText [97]; VInt 196])) /\
+  upgrade_frame all_frames fr_BUF [VInt 128000; VInt 1; VInt 74565] = Ok (Some (fr_id fr_RBUF, [VInt 128000; VInt 1; VInt 74565])) /\
+  upgrade_frame all_frames fr_CRM [VText [97]; VText [98]; VBytes [1]] = Ok None.
+Proof. vm_compute. repeat split. Qed.
+
+(* the nesting bound of ID3FramesSpec.read: tag_read (S nesting_limit) opens 16 levels of sub-frames; a reader with no level
+   left drops the frame that would open one (here: depth 1, a CHAP -- even an empty one -- is junk, the TIT2 after it is read) *)
+Example C12_ex_nesting_bound :
+  let chap := [67;72;65;80; 0;0;0;18; 0;0; 99;0; 0;0;0;1; 0;0;0;2; 0;0;0;3; 0;0;0;4] in
+  let tit2 := [84;73;84;50; 0;0;0;2; 0;0; 0;97] in
+  tag_read frames_2_2 all_frames 4 1 false (chap ++ tit2) = Ok (mkParsed [(fr_id fr_TIT2, [VInt 0; VList [VText [97]]])] [] []) /\
+  match tag_read frames_2_2 all_frames 4 2 false (chap ++ tit2) with Ok p => length (p_frames p) = 2%nat | Raise _ => False end.
+Proof. vm_compute. repeat split. Qed.
